@@ -1,6 +1,7 @@
 import JediModel.Gen.C11
 import JediModel.Lemmas.Call
 import JediModel.Lemmas.CallArgs
+import JediModel.Lemmas.CallForward
 set_option linter.unusedSimpArgs false
 /-! # C11 — signatures and docstrings mirror the definition; index locates the argument
 
@@ -231,6 +232,107 @@ theorem bound_spec_invalid_method (s : Sig)
         cases ko with
         | cons k ko => simp [removeBoundParam, Sig.params, P.pname]
         | nil => cases vk <;> simp [removeBoundParam, Sig.params, P.pname]
+
+/-! ## `**kwargs` pass-through wrappers (`process_params` forwarding) -/
+
+/-- with nothing forwarded the forwarding model is `process_params` as modelled before -/
+theorem process_params_kw_nil (ps : List PName) : processParamsKw ps [] = processParams ps := by
+  simp [processParamsKw, processParams]
+
+/-- a wrapper `def w(<own parameters>, **kwargs)` whose body passes `**kwargs` (and nothing else)
+on to a callee with parameter list `s`: the signature shown is the wrapper's own parameters, then
+the callee's positional-or-keyword and keyword-only parameters – all keyword-only now, names,
+defaults, annotations and order kept –, then the callee's `**kwargs`; the callee's positional-only
+parameters and `*args` (unreachable through `**kwargs`) are not shown -/
+theorem kwforward_params (w s : Sig)
+    (hwpk : ∀ p ∈ w.pk, dunder p.name = false) (hwko : ∀ p ∈ w.ko, dunder p.name = false)
+    (hspk : ∀ p ∈ s.pk, dunder p.name = false) (hsko : ∀ p ∈ s.ko, dunder p.name = false)
+    (h : ((w.pk ++ (w.ko ++ (s.pk ++ s.ko))).map P.name).Nodup) :
+    processParamsKw (paramNames w.toks) [calleeParams false 0 [] (paramNames s.toks)] =
+      Sig.params ⟨w.po, w.pk, w.vp, w.ko ++ (s.pk ++ s.ko), s.vk⟩ := by
+  rw [paramNames_toks w hwpk hwko, paramNames_toks s hspk hsko]
+  simp only [calleeParams, Bool.false_eq_true, if_false, removeGiven_zero_nil]
+  exact processParamsKw_sig w s h
+
+example : ∃ w s : Sig, w.pk ≠ [] ∧ w.vk.isSome ∧ s.po ≠ [] ∧ s.pk ≠ [] ∧ s.vp.isSome ∧ s.ko ≠ [] ∧
+    ((w.pk ++ (w.ko ++ (s.pk ++ s.ko))).map P.name).Nodup :=
+  ⟨⟨[], [⟨['x'], none, none⟩], none, [], some ⟨['k', 'w'], none, none⟩⟩,
+   ⟨[⟨['p'], none, none⟩], [⟨['a'], none, some ['1']⟩], some ⟨['v'], none, none⟩, [⟨['k'], none, none⟩], none⟩,
+   by decide⟩
+
+/-- the plain pass-through shape `def f(**kwargs): return g(**kwargs)`: the forwarded signature is
+`kwForwarded` of the wrapped one -/
+theorem kwforward_pure (s : Sig) (kw : P)
+    (hspk : ∀ p ∈ s.pk, dunder p.name = false) (hsko : ∀ p ∈ s.ko, dunder p.name = false)
+    (h : ((s.pk ++ s.ko).map P.name).Nodup) :
+    signatureParams false (processParamsKw (paramNames (Sig.toks ⟨[], [], none, [], some kw⟩))
+      [calleeParams false 0 [] (paramNames s.toks)]) = (kwForwarded s).params := by
+  have e := kwforward_params ⟨[], [], none, [], some kw⟩ s (by simp) (by simp) hspk hsko (by simpa using h)
+  rw [e]
+  have hn : (((kwForwarded s).pk ++ (kwForwarded s).ko).map P.name).Nodup := by simpa [kwForwarded] using h
+  have := processParams_params (kwForwarded s) hn
+  simpa [signatureParams, kwForwarded] using this
+
+/- FULL (false, see `kwforward_required_positional_only_witness`):
+   theorem kwforward_accepts_iff (s : Sig) (npos : Nat) (kws : List Str) :
+     pyAccepts (kwForwarded s) npos kws = pyRunsKwWrapper s npos kws -/
+
+/-- exactly the calls that bind against the forwarded signature run without `TypeError` – for every
+wrapped parameter list whose positional-only parameters all have defaults, every number of
+positional arguments and every list of keywords -/
+theorem kwforward_accepts_iff_partial (s : Sig) (npos : Nat) (kws : List Str)
+    (hpo : ∀ p ∈ s.po, p.dflt.isSome = true) :
+    pyAccepts (kwForwarded s) npos kws = pyRunsKwWrapper s npos kws := by
+  obtain ⟨po, pk, vp, ko, vk⟩ := s
+  simp only at hpo
+  have h1 : ∀ n, pyKwOk (kwForwarded ⟨po, pk, vp, ko, vk⟩) npos n = pyKwOk ⟨po, pk, vp, ko, vk⟩ 0 n := by
+    intro n
+    have e0 : optIdx (([] : List P).map P.name) n = none := by simp [optIdx]
+    simp only [pyKwOk, kwForwarded, e0]
+    cases hn : optIdx (pk.map P.name) n with
+    | some j =>
+      have := (optIdx_some_mem _ _ _ hn).1
+      simp [this]
+    | none =>
+      have := (optIdx_none_iff _ _).mp hn
+      have hc : (pk.map P.name).contains n = false := by simpa using this
+      simp only [List.map_append, List.contains_append, hc, Bool.false_or]
+  have h2 : po.all (fun p => p.dflt.isSome) = true := by
+    simpa [List.all_eq_true] using hpo
+  have h3 : (kws.all (pyKwOk (kwForwarded ⟨po, pk, vp, ko, vk⟩) npos)) = kws.all (pyKwOk ⟨po, pk, vp, ko, vk⟩ 0) := by
+    congr 1
+    funext n
+    exact h1 n
+  unfold pyRunsKwWrapper pyAccepts
+  rw [h3]
+  by_cases h0 : npos = 0
+  · subst h0
+    simp [kwForwarded, h2, List.all_append, Bool.and_assoc]
+  · simp [kwForwarded, h0]
+
+example : ∃ (s : Sig) (kws : List Str), s.po ≠ [] ∧ (∀ p ∈ s.po, p.dflt.isSome = true) ∧
+    pyAccepts (kwForwarded s) 0 kws = true :=
+  ⟨⟨[⟨['p'], none, some ['1']⟩], [⟨['a'], none, none⟩], none, [⟨['k'], none, some ['2']⟩], none⟩,
+    [['a']], by decide⟩
+
+/-- kernel-checked: `def g(p, /, a): pass` / `def f(**kwargs): return g(**kwargs)` – the shown
+signature `f(*, a)` accepts `f(a=0)`, the real call raises `TypeError` (`p` can never be supplied) -/
+theorem kwforward_required_positional_only_witness :
+    pyAccepts (kwForwarded ⟨[⟨['p'], none, none⟩], [⟨['a'], none, none⟩], none, [], none⟩) 0 [['a']] = true ∧
+    pyRunsKwWrapper ⟨[⟨['p'], none, none⟩], [⟨['a'], none, none⟩], none, [], none⟩ 0 [['a']] = false := by
+  decide
+
+/-- arguments the forwarding call supplies itself are taken off the callee's list: `g(1, **kwargs)`
+removes the first parameter that can be positional, `g(k=…, **kwargs)` the one named `k` (if it can
+be given by keyword); with nothing supplied nothing is removed -/
+theorem remove_given_spec (p : PName) (rest : List PName) (keys : List Str) :
+    removeGiven 0 [] (p :: rest) = p :: rest ∧
+    (maybePositional p = true → removeGiven 1 keys (p :: rest) = removeGiven 0 keys rest) ∧
+    (maybeKeyword p = true → keys.contains p.name = true →
+      removeGiven 0 keys (p :: rest) = removeGiven 0 keys rest) := by
+  refine ⟨removeGiven_zero_nil _, ?_, ?_⟩
+  · intro h; simp [removeGiven, h]
+  · intro h1 h2; simp_all [removeGiven]
 
 /-! ## the argument scan and `index` -/
 
